@@ -428,6 +428,7 @@ func CheckC13(e *Env) (int, error) {
 	byKind := map[string]int{}
 	probesHit := map[string]int{}
 	totalOps, scribbles, reinspects, devReads := 0, 0, 0, 0
+	idleN, idleMs := 0, int64(0)
 	fired := map[string]int{}
 	var samples []interface{}
 	firstPairs := map[[2]int]bool{}
@@ -446,6 +447,12 @@ func CheckC13(e *Env) (int, error) {
 		}
 		byKind[kindOf[i]]++
 		totalOps += len(hp.Ops)
+		for _, op := range hp.Ops {
+			if op.J != 0 {
+				idleN++
+				idleMs += op.J
+			}
+		}
 		if res != nil {
 			od.Add(i, strDigest(mustJSON(res.Outcomes)+mustJSON(res.Altered)))
 			scribbles += res.Scribbles
@@ -539,7 +546,10 @@ func CheckC13(e *Env) (int, error) {
 		"distinct_histories":                     len(distinct),
 		"history_kinds":                          byKind,
 		"sim_steps_total":                        totalOps,
-		"sim_time_note":                          "no clock in the system; simulated time is counted in history operations",
+		"sim_time_note":                          "the unchanged tree reads no clock, so simulated time is counted in history operations; a tree that imports \"time\" gets Now/Since/Until from the clock seam, which the simulator moves forward in jumps (idle periods of 50 ms to 400 d between calls)",
+		"clock_seam_files":                       e.ClockFiles("go"),
+		"simulated_idle_periods":                 idleN,
+		"simulated_idle_ms_total":                idleMs,
 		"solo_oracle_processes":                  solo.Procs,
 		"pool_calls":                             len(pool),
 		"environment_variables_read_by_the_tree": envNames,
